@@ -230,6 +230,14 @@ async fn replay(mut sim: Sim, beh: Arc<Value>) -> Result<Value, String> {
                     _ => fail!("unknown auto step"),
                 }
             }
+            "abandon" => {
+                let Some(dl) = dials.get_mut(&a) else { fail!("unknown dial") };
+                if let Some(j) = dl.join.take() {
+                    j.abort();
+                }
+                sim.run.obs(b - 1, "obs.note", json!({"what": "connect() call abandoned", "dial": a}));
+                settle(&mut sim, 1).await;
+            }
             "admit" => {
                 let k = a;
                 let Some(dl) = dials.get(&k) else { fail!("unknown dial") };
